@@ -378,10 +378,11 @@ impl Column {
                 decoded.push(first);
                 decoded.push(second);
                 let mut last = second;
-                let mut last_delta = second - first;
+                // Differences of extreme values do not fit i64; the values themselves do, so wrapping arithmetic is exact.
+                let mut last_delta = second.wrapping_sub(first);
                 for i in data {
-                    last_delta += i as i64;
-                    last += last_delta;
+                    last_delta = last_delta.wrapping_add(i as i64);
+                    last = last.wrapping_add(last_delta);
                     decoded.push(last);
                 }
                 Column::Int(decoded)
@@ -394,10 +395,11 @@ impl Column {
                 decoded.push(first);
                 decoded.push(second);
                 let mut last = second;
-                let mut last_delta = second - first;
+                // Differences of extreme values do not fit i64; the values themselves do, so wrapping arithmetic is exact.
+                let mut last_delta = second.wrapping_sub(first);
                 for i in data {
-                    last_delta += i as i64;
-                    last += last_delta;
+                    last_delta = last_delta.wrapping_add(i as i64);
+                    last = last.wrapping_add(last_delta);
                     decoded.push(last);
                 }
                 Column::Int(decoded)
@@ -410,10 +412,11 @@ impl Column {
                 decoded.push(first);
                 decoded.push(second);
                 let mut last = second;
-                let mut last_delta = second - first;
+                // Differences of extreme values do not fit i64; the values themselves do, so wrapping arithmetic is exact.
+                let mut last_delta = second.wrapping_sub(first);
                 for i in data {
-                    last_delta += i as i64;
-                    last += last_delta;
+                    last_delta = last_delta.wrapping_add(i as i64);
+                    last = last.wrapping_add(last_delta);
                     decoded.push(last);
                 }
                 Column::Int(decoded)
@@ -422,7 +425,10 @@ impl Column {
                 let start = xs.get_start();
                 let len = xs.get_len() as usize;
                 let step = xs.get_step();
-                let decoded = (0..len).map(|i| start + i as i64 * step).collect();
+                // Every element fits i64 even when i * step does not: wrapping arithmetic is exact.
+                let decoded = (0..len)
+                    .map(|i| start.wrapping_add((i as i64).wrapping_mul(step)))
+                    .collect();
                 Column::Int(decoded)
             }
         };
@@ -454,11 +460,11 @@ fn determine_delta_compressability(ints: &[i64]) -> DeltaStats {
     }
 
     let mut previous = ints[1];
-    let mut previous_delta = (ints[1] - ints[0]) as i128;
+    let mut previous_delta = ints[1] as i128 - ints[0] as i128;
     min_delta = previous_delta;
     max_delta = previous_delta;
     for curr in &ints[2..] {
-        let delta = (*curr - previous) as i128;
+        let delta = *curr as i128 - previous as i128;
         min_delta = min_delta.min(delta);
         max_delta = max_delta.max(delta);
         let delta_delta = delta - previous_delta;
@@ -498,10 +504,10 @@ where
 {
     let mut encoded = Vec::with_capacity(ints.len());
     let mut previous = ints[1];
-    let mut previous_delta = ints[1] - ints[0];
+    let mut previous_delta = ints[1] as i128 - ints[0] as i128;
     for curr in &ints[2..] {
-        let delta = curr - previous;
-        let delta_delta = delta - previous_delta;
+        let delta = *curr as i128 - previous as i128;
+        let delta_delta = (delta - previous_delta) as i64;
         encoded.push(T::try_from(delta_delta).unwrap());
         previous = *curr;
         previous_delta = delta;
